@@ -1628,8 +1628,6 @@ void run_fit(const uint64_t seed, const long scenario, const bool thorough, cons
         cfg.rounds    = 10;
         cfg.epsilon   = 1e-10;
         cfg.max_evals = 300;
-        if (std::getenv("C18_SHRINK")) cfg.shrinkage = std::getenv("C18_SHRINK"); //@@TMP
-        if (std::getenv("C18_SUBS")) { cfg.subsample = std::getenv("C18_SUBS"); } //@@TMP
     }
     const auto src = make_regression_source(rng, n, nsc, cfg.kind < 4 ? static_cast<size_t>(rng.range(0, 1)) : static_cast<size_t>(rng.range(1, 2)), cfg.kind < 4 ? 0.05 : 0.2);
     const auto ctx = seedctx("fit", scenario) + " " + cfg_text(cfg) + " " + src.desc + " delay=" + std::to_string(delay);
@@ -1657,13 +1655,17 @@ void run_fit(const uint64_t seed, const long scenario, const bool thorough, cons
         // Neither applies to the dataset_pool=1 runs (no re-association, no concurrent feature evaluation): those must be bit-identical.
         const auto ntables = std::count_if(cfg.wlearners.begin(), cfg.wlearners.end(), [](const std::string& w) { return w.find("-table") != std::string::npos; });
         const bool dtree   = std::find(cfg.wlearners.begin(), cfg.wlearners.end(), "dtree") != cfg.wlearners.end();
-        const bool has_dtree = (dtree || ntables >= 2) && !bitwise; // "tie prone"
+        //  - any other gboost configuration, rarely (about 1 scenario in 100; e.g. seed 20260926 thorough fit:49, stumps on a uniform
+        //    subsample): the greedy, discrete choices of boosting (feature / threshold / early-stopping round / local shrinkage)
+        //    amplify the ulp-level noise in the same way; recorded as `fit-gboost-flip`.
+        // A different exception, and every difference of a LINEAR model (continuous in its inputs), is always a failure.
+        const bool has_dtree = cfg.kind == 4 && !bitwise; // "tie prone"
         const auto report    = [&](const std::string& what, const std::string& c)
         {
-            if (has_dtree) cand(dtree ? "fit-dtree-tie" : "fit-table-tie", what, c);
+            if (has_dtree) cand(dtree ? "fit-dtree-tie" : (ntables >= 2 ? "fit-table-tie" : "fit-gboost-flip"), what, c);
             else fail("fit", what, c);
         };
-        if (o.exc != ref.exc) { same = false; report("`" + o.exc + "` with " + std::to_string(threads) + " threads, `" + ref.exc + "` with one", tctx); }
+        if (o.exc != ref.exc) { same = false; fail("fit", "`" + o.exc + "` with " + std::to_string(threads) + " threads, `" + ref.exc + "` with one", tctx); }
         else
         {
             // hyper-parameter tuning is an argmin over trials: when two trials have validation errors within rounding of each
